@@ -246,13 +246,23 @@ def run_wrap(case):
             else:
                 world.net.begin_script([], {"k": "ok"})
             cmd = p.read_command(35100 + (i % 50), 1) if i % 5 else p.write_command(47000 + (i % 9), i & 0x7FFF)
-            await cmd.execute(p)
+            try:
+                await cmd.execute(p)
+            except ge.InverterError:
+                raise
+            except Exception as e:  # noqa - e.g. the id no longer fits its two bytes
+                crashed.append((len(txids), repr(e)))
+                return
             i += 1
 
+    crashed = []
     status, _ = C.run_world(world, main())
     violations = []
     if status != "ok":
         violations.append(viol("C03:hang:wrap", f"wrap history did not terminate: {status}"))
+    if crashed:
+        violations.append(viol("C03:wrap:exception", f"after {crashed[0][0]} Modbus/TCP transmissions in this process a "
+                               f"request ended with {crashed[0][1]}"))
     if bad:
         violations.append(viol("C03:mbap:length", f"non-canonical MBAP header in {bad[0]}"))
     prev = None
